@@ -39,6 +39,8 @@ var specials = []float64{
 	0.30000000000000004, 0.1 + 0.7, 1.0 / 3, 2.0 / 3, 100, 1e15, 1e16, 1e17, 9007199254740993, 9007199254740992, 123456.789,
 	1.7976931348623157e308, 8.41e21, 5e-5, 12345678901234567890, 0.000001, 1234567.0, 100000, 1e5, 1e100, 1e-100, 3.141592653589793,
 	2.718281828459045, 179.99999999999997, -179.99999999999997, 89.99999999999999, 4503599627370496.5, 0.1e-3,
+	// the real %e/%f switch of 'g' with shortest digits (formatDigits: eprec = 6): exponent < -4 || exponent >= 6
+	999999, 1e6, 999999.9999999999, 1000000.0000000001, 999999.5, 1000001, 1.5e6, 123456, 1234567, 100000.5, 9.223372036854775808e18,
 }
 
 func coord(r *vproto.Rng, allowNonFinite bool) float64 {
@@ -59,8 +61,8 @@ func coord(r *vproto.Rng, allowNonFinite bool) float64 {
 	case 3, 4:
 		return specials[r.Intn(len(specials))]
 	case 5:
-		// around the 'g' exponent-notation boundaries 1e21 and 1e-4
-		b := []float64{1e21, 1e-4, 1e-5, 1e20, 1e-7}[r.Intn(5)]
+		// around the 'g' exponent-notation boundaries 1e-4/1e-5 and 1e6 (and 1e21, fmt's %v boundary)
+		b := []float64{1e21, 1e-4, 1e-5, 1e20, 1e-7, 1e6, 1e5, 1e7}[r.Intn(8)]
 		f := b
 		for i := r.Intn(4); i > 0; i-- {
 			if r.Bool() {
@@ -210,6 +212,64 @@ func wide(r *vproto.Rng, k, level, w int) geom.Geom {
 			m[i] = ptss(1)
 		}
 		return m
+	}
+}
+
+// insertDup repeats one element of s: next to the original or anywhere (value-equal members / vertices)
+func insertDup[T any](r *vproto.Rng, s []T) []T {
+	if len(s) == 0 {
+		return s
+	}
+	i := r.Intn(len(s))
+	j := i + 1
+	if r.Intn(3) == 0 {
+		j = r.Intn(len(s) + 1)
+	}
+	q := make([]T, 0, len(s)+1)
+	q = append(q, s[:j]...)
+	q = append(q, s[i])
+	q = append(q, s[j:]...)
+	return q
+}
+
+// withDup: a geometry of type k (1..4) in which a vertex, a ring / line string, or a whole polygon occurs twice
+// (or three times) with equal values; impl makes such members share one backing array on every other line
+func withDup(r *vproto.Rng, k int) geom.Geom {
+	c := cfg{}
+	times := 1 + r.Intn(2)
+	switch g := c.geom(r, k).(type) {
+	case geom.LineString:
+		for ; times > 0; times-- {
+			g = insertDup(r, g)
+		}
+		return g
+	case geom.MultiLineString:
+		for ; times > 0; times-- {
+			g = insertDup(r, g)
+		}
+		return g
+	case geom.Polygon:
+		for ; times > 0; times-- {
+			if r.Intn(4) == 0 {
+				i := r.Intn(len(g))
+				g[i] = insertDup(r, g[i])
+			} else {
+				g = insertDup(r, g)
+			}
+		}
+		return g
+	case geom.MultiPolygon:
+		for ; times > 0; times-- {
+			if r.Bool() {
+				i := r.Intn(len(g))
+				g[i] = insertDup(r, g[i])
+			} else {
+				g = insertDup(r, g)
+			}
+		}
+		return g
+	default:
+		return g
 	}
 }
 
@@ -409,6 +469,15 @@ func gen(seed uint64, tier string) {
 	for i := 0; i < nbig; i++ {
 		emit(big.geom(r, 1+r.Intn(4)))
 	}
+	// repeated members: value-equal vertices / rings / line strings / polygons inside one geometry (impl lets
+	// them share a backing array on every other line)
+	ndup := 300
+	if tier == "thorough" {
+		ndup = 4000
+	}
+	for i := 0; i < ndup; i++ {
+		emit(withDup(r, 1+r.Intn(4)))
+	}
 }
 
 func renderings(g geom.Geom, b *strings.Builder) {
@@ -547,6 +616,51 @@ func roomy(g geom.Geom) geom.Geom {
 	return g
 }
 
+// shared lets value-equal members of g (rings, line strings, polygons) be ONE slice: same backing array,
+// same header — what `ring := ...; geom.Polygon{ring, ring}` or a deduplicating decoder produces
+func shared(g geom.Geom) geom.Geom {
+	seenP := map[string][]geom.Point{}
+	pts := func(p []geom.Point) []geom.Point {
+		if len(p) == 0 {
+			return p
+		}
+		k := vproto.GeomToks(geom.LineString(p))
+		if q, ok := seenP[k]; ok {
+			return q
+		}
+		seenP[k] = p
+		return p
+	}
+	seenPP := map[string][]geom.Path{}
+	paths := func(p []geom.Path) []geom.Path {
+		for i := range p {
+			p[i] = pts(p[i])
+		}
+		if len(p) == 0 {
+			return p
+		}
+		k := vproto.GeomToks(geom.Polygon(p))
+		if q, ok := seenPP[k]; ok {
+			return q
+		}
+		seenPP[k] = p
+		return p
+	}
+	switch t := g.(type) {
+	case geom.MultiLineString:
+		for i := range t {
+			t[i] = pts(t[i])
+		}
+	case geom.Polygon:
+		return geom.Polygon(paths(t))
+	case geom.MultiPolygon:
+		for i := range t {
+			t[i] = paths(t[i])
+		}
+	}
+	return g
+}
+
 // encAnswer: the result string of one Encode call (same format as an `enc` line's result)
 func encAnswer(g geom.Geom) (ans string) {
 	if pan := vproto.Safe(func() {
@@ -649,6 +763,9 @@ func impl() {
 				hl.Write([]byte(line))
 				if hl.Sum32()&2 == 2 {
 					g = roomy(g) // every slice has spare capacity holding junk beyond its length
+				}
+				if hl.Sum32()&4 == 4 {
+					g = shared(g) // value-equal members are one and the same slice
 				}
 				before := vproto.GeomToks(g)
 				arg := g
